@@ -55,6 +55,7 @@ else /usr/bin/cat > "$d/pager.stdin"; fi
 if [ -n "$STUB_CLOSE_STDIN" ]; then exec 0<&-; fi
 if [ -n "$STUB_SLEEP" ]; then /usr/bin/sleep "$STUB_SLEEP"; fi
 /usr/bin/date +%s.%N > "$d/pager.exit_time"
+if [ -n "$STUB_KILL" ]; then kill -s "$STUB_KILL" $$; /usr/bin/sleep 0.05; fi
 exit ${STUB_EXIT:-0}
 """
 
@@ -926,6 +927,30 @@ def _run(ctx, rep, lab, only):
                                args=NG + ["--paging", "always", "--pager", stubpager], stdin=f_small,
                                path=P_PAGERS, mode="stdin", pager=True, k=None, env={"STUB_EXIT": "3", "STUB_SLEEP": "0.15"}))
 
+        # T21: every way the pager can end x when it stops reading x how delta was called. Whatever the
+        # pager's status, delta stays silent and exits with its own status (0 here: the stub differ / git
+        # report 0). `pstatus` is what the model's `PagerTail.runFull` is asked about.
+        PSTATUS = [("exit0", "e0", {"STUB_EXIT": "0"}), ("exit1", "e1", {"STUB_EXIT": "1"}),
+                   ("exit3", "e3", {"STUB_EXIT": "3"}), ("exit130", "e130", {"STUB_EXIT": "130"}),
+                   ("sigpipe", "s13", {"STUB_KILL": "PIPE"}), ("sigterm", "s15", {"STUB_KILL": "TERM"})]
+        for pname, pst, penv in PSTATUS:
+            for when in ("early", "all"):
+                k = rng.choice([0, 1, 10, 300, 4096]) if when == "early" else None
+                data = f_big if when == "early" else f_small
+                renv = dict(penv, STUB_SLEEP="0.12")
+                if k is not None:
+                    renv["STUB_READ_BYTES"] = str(k)
+                pa = NG + ["--paging", "always", "--pager", stubpager]
+                reader_scs.append(dict(cls="reader", family="pgstatus/stdin-%s-%s" % (when, pname), args=pa, stdin=data,
+                                       path=P_PAGERS, mode="stdin", pager=True, k=k, pstatus=pst, env=dict(renv)))
+                senv = dict(renv, STUB_OUT=data, STUB_SUB_EXIT="0")
+                reader_scs.append(dict(cls="reader", family="pgstatus/diffAB-%s-%s" % (when, pname), args=pa + [f_a, f_b],
+                                       stdin=None, path=P_GIT, mode="sub", pager=True, k=k, pstatus=pst,
+                                       sub=dict(kind="gitdiff", status=0, stderr_lines=0), env=dict(senv)))
+                reader_scs.append(dict(cls="reader", family="pgstatus/gitshow-%s-%s" % (when, pname),
+                                       args=pa + ["git", "show"], stdin=None, path=P_GIT, mode="sub", pager=True, k=k,
+                                       pstatus=pst, sub=dict(kind="git", status=0, stderr_lines=0), env=dict(senv)))
+
     # ---------------------------------------------------------------- selection matrix
     select_scs = []
     if only is None:
@@ -1096,6 +1121,11 @@ def _run(ctx, rep, lab, only):
                 # where the reader goes away is not under our control: ask for both outcomes
                 ri = (ask(model_run_req(sc["mode"], sc["pager"], 1, None, sub.get("kind", "git"), True, 0, 0)),
                       ask(model_run_req(sc["mode"], sc["pager"], 1, (0, "bp"), sub.get("kind", "git"), True, 0, 0)))
+                if sc.get("pstatus"):
+                    # the same two outcomes with the destructor / tail of main interpreted for this pager status
+                    ri = ri + tuple(ask(model_run_req(sc["mode"], sc["pager"], 1, f, sub.get("kind", "git"), True, 0, 0)
+                                        .replace("pager.run ", "pager.runfull ", 1) + " " + sc["pstatus"])
+                                    for f in (None, (0, "bp")))
             else:
                 ri = ask(model_run_req(sc["mode"], sc["pager"], n, fault, sub.get("kind", "git"),
                                        sub.get("spawnok", True), sub.get("status", 0), sub.get("stderr_lines", 0)))
@@ -1219,6 +1249,18 @@ def judge(ctx, rep, lab, sc, ob, ri, answers, ref_small):
                 ok = any(a[0] == "ok" and str(rc) == a[1] and ((not err) == (a[2] == "1")) for a in (a1, a2))
                 rep.corr_case("pager.run(reader)", ok, dict(scenario=replayable(sc), impl=dict(rc=rc, stderr=bool(err)),
                                                             model=[" ".join(a1), " ".join(a2)]))
+            if len(ri) == 4:
+                b1, b2 = model_ans(ri[2]), model_ans(ri[3])
+                if b1 and b2 and (b1[0] == "ERR" or b2[0] == "ERR"):
+                    rep.count("runfull-skipped-old-driver")
+                elif b1 and b2:
+                    rep.count("pgstatus:" + sc["pstatus"])
+                    ok = any(b[0] == "ok" and str(rc) == b[1] and ((not err) == (b[2] == "1")) and "unknown" not in b[3]
+                             for b in (b1, b2))
+                    rep.corr_case("pager.runfull(pager-status)", ok,
+                                  dict(scenario=replayable(sc), impl=dict(rc=rc, stderr=bool(err)),
+                                       model=[" ".join(b1[:4]), " ".join(b2[:4])],
+                                       drop_rows=unhx(b1[4]).decode().split("\n") if len(b1) > 4 else None))
         return
 
     if c == "select":
